@@ -217,6 +217,8 @@ def make_small_groups(rng, tier):
 
 def cost(job, n_utts):
     """Rough wall-clock estimate (s) of one job, for spreading jobs over parallel subprocesses."""
+    if "cost" in job:
+        return job["cost"]
     if job["workers"] == 0:
         return 0.05
     if job["start"] == "fork" or n_utts == 0:
